@@ -18,28 +18,28 @@ REGISTRY = {
     "C05": (
         "TLC-enumerated stabilizer states fed to the real fidelity / equality / canonical-form code; results judged by TLC "
         "against the group-level definition; fidelity lemmas model-checked on all ordered pairs",
-        "All 6/60 states (all ordered pairs) and 1080 states (sampled pairs quick, all 1080^2 thorough) in random "
+        "All 6/60 states (all ordered pairs), 1080 states (sampled pairs quick, all 1080^2 thorough) and sampled 4-6 qubit states against related states, in random "
         "generating sets with random destabilizers; TLC checks value = |<a|b>|^2, symmetry, 1 iff equal, equality, "
         "canonical form (same state, unique), Infidelity metric, sign-flip near misses.",
         "", "DESIGN.md 6/C05"),
     "C11": (
         "TLC-enumerated stabilizer states / graphs fed to the real inverse-circuit synthesis; the returned gate list is "
         "executed by the spec's gate semantics in TLC",
-        "Every stabilizer state on <= 3 qubits (sampled 4-qubit states in thorough) in several generating sets, every "
+        "Every stabilizer state on <= 3 qubits in several generating sets, sampled 5-7 qubit states (4-7 in thorough), every "
         "labelled graph on <= 4 (5) vertices: inverse circuit maps the group to +Z^n, reverse run / "
         "clifford_from_stabilizer / CliffordTableau(StabilizerTableau) / graph tableau are valid tableaux of that state.",
         "", "DESIGN.md 6/C11"),
     "C02": (
         "real solver output circuits given to TLC as data and executed by the spec over every measurement-outcome branch; "
         "the same circuits compiled by both real compilers and trace-validated",
-        "Every labelled graph on <= 4 (quick) / <= 5 + samples of 6, 7 (thorough) vertices as graph / stabilizer / dm "
+        "Every labelled graph on <= 4 (quick) / <= 5 + samples of 6, 7 (thorough) vertices and disjoint unions of 2-4 vertex blocks (n <= 8) as graph / stabilizer / dm "
         "target: TLC explores all outcome combinations of the returned circuit (photons = |G>, emitters |0>, order is a "
         "linearisation, score 0); compile traces of both backends under forced / random outcomes follow the spec.",
         "", "DESIGN.md 6/C02"),
     "C03": (
         "TLC-enumerated states / graphs fed to the real height functions, judged by TLC against the group-level entropy; "
         "cut-rank lemma model-checked on all graphs; emitter count of solver circuits checked by TLC",
-        "All stabilizer states n <= 3 in many generating sets, all labelled graphs n <= 4 (5): height[k] = entanglement "
+        "All stabilizer states n <= 3 in many generating sets, all labelled graphs n <= 4 (5) and 6-8 vertex graphs (half with cut blocks whose real and GF(2) rank differ): height[k] = entanglement "
         "entropy (gauge free), height_max, determine_n_emitters, emitter_sorted; solver circuits use exactly max-height "
         "emitters and emit each photon once; MC_GraphCut: entropy = GF(2) cut rank for every graph.",
         "", "DESIGN.md 6/C03"),
@@ -71,22 +71,24 @@ REGISTRY = {
         "against the spec's graph state (group / exact Pauli vector)",
         "All labelled graphs n <= 4 (5 thorough; dm legs n <= 4): graph->dm, graph->stabilizer, dm->graph, "
         "stabilizer->graph in several generating sets, all 9 ordered representation pairs of convert_representation; all "
-        "stabilizer states n <= 3 (sampled n = 4): state_to_graph gates map the state onto the returned graph state with "
-        "signs.",
+        "stabilizer states n <= 3 and sampled 4-6 qubit states (harness-built Clifford tableaux): state_to_graph gates map "
+        "the state onto the returned graph state with signs; graphs whose node insertion order is not the label order.",
         "", "DESIGN.md 6/C08"),
     "C09": (
         "LC orbit computed by TLC as the local-complementation fixpoint (ground truth); real decision procedure, gate "
         "lists and complementation sequences judged against it; LC lemmas model-checked",
         "Every ordered pair of labelled graphs n <= 4 (n = 5 all start graphs, n = 6 sampled in thorough): Soundness, "
         "Completeness, returned Cliffords executed by the spec on |G1> (exact signs), returned sequence folded over G1, "
-        "local complementation (function, copy, in place); graphs / adjacency matrices / tableaux; both modes.",
+        "local complementation (function, copy, in place); graphs / adjacency matrices / tableaux; both modes; lc_check on "
+        "stabilizer states with signs and local Cliffords (both tableau classes, validate on/off).",
         "", "DESIGN.md 6/C09"),
     "C16": (
         "real relabel / iso_finder / orbit explorers on enumerated graphs; TLC judges by explicit permutation search and "
         "membership in the local-complementation fixpoint orbit",
         "All labelled graphs n <= 4 (5, sampled 6 in thorough): RelabelOK for all permutations, MapIsIso, iso_finder "
         "settings grid (InputFirst, PairwiseDistinct, AllIsomorphic, NeverMoreThanRequested), lc_orbit_finder flag grid, "
-        "rgs / linear / depth-first explorers: OrbitMember, OrbitDistinct.",
+        "rgs / linear / depth-first explorers: OrbitMember, OrbitDistinct; 7-10 vertex instances judged with certificates "
+        "(permutation per isomorph, complementation sequence per orbit member) that TLC verifies.",
         "", "DESIGN.md 6/C16"),
     "C20": (
         "TLA+ model of the single-qubit Clifford group (signed-axis maps) model-checked for closure; library lists, "
@@ -133,7 +135,8 @@ REGISTRY = {
         "rule and optional selection: HofSorted, HofHonest, HofPrivate, BestMonotone. Real evolutionary / hybrid runs "
         "(both compilers, selection / adaptive on-off, hall-of-fame sizes): same clauses with every stored circuit "
         "re-scored by a fresh compiler, HofFromKnown, ResultIsBest, LogsMonotone, ReproducibleInProcess and "
-        "ReproducibleAcrossProcesses (fresh interpreters with other hash seeds).",
+        "ReproducibleAcrossProcesses (fresh interpreters with other hash seeds); update_hof driven directly with synthetic "
+        "populations incl. near-tied scores, judged against the insertion rule (HofUpdateRule).",
         "", "DESIGN.md 6/C19"),
     "C17": (
         "exact values of fidelity / trace distance / reduced states computed by the spec on stabilizer mixtures "
